@@ -572,3 +572,121 @@ Proof.
     + apply filter_In. split; auto. apply memN_In. exact Hm.
     + intros y Hy. apply filter_In in Hy. destruct Hy as [_ Hy]. apply memN_In in Hy. auto.
 Qed.
+
+(* ---------- more about appending / dropping at the tail ---------- *)
+
+Lemma last_commit_snoc_state : forall a c, last_commit (a ++ [RState c]) = c.
+Proof. intros. rewrite last_commit_app. reflexivity. Qed.
+
+Definition has_state (rs : list rec) : bool := existsb is_state rs.
+
+Lemma fold_commit_nostate : forall rs d, has_state rs = false ->
+  fold_left (fun acc r => match r with RState c => c | _ => acc end) rs d = d.
+Proof.
+  induction rs as [|r rs IH]; intros d H; simpl; auto.
+  unfold has_state in H. simpl in H. apply orb_false_iff in H. destruct H as [H1 H2].
+  destruct r; simpl in H1; try discriminate; apply IH; exact H2.
+Qed.
+
+Lemma fold_commit_state : forall rs d d', has_state rs = true ->
+  fold_left (fun acc r => match r with RState c => c | _ => acc end) rs d =
+  fold_left (fun acc r => match r with RState c => c | _ => acc end) rs d'.
+Proof.
+  induction rs as [|r rs IH]; intros d d' H; [discriminate|].
+  unfold has_state in H. simpl in H. fold (has_state rs) in H. simpl.
+  destruct r; simpl in H; try (apply IH; exact H).
+  destruct (has_state rs) eqn:Q; [apply IH; reflexivity|].
+  rewrite !fold_commit_nostate by exact Q. reflexivity.
+Qed.
+
+Lemma last_commit_nostate : forall a rs, has_state rs = false -> last_commit (a ++ rs) = last_commit a.
+Proof. intros. rewrite last_commit_app. apply fold_commit_nostate. exact H. Qed.
+
+(* a suffix that contains a hard state determines the last commit *)
+Lemma last_commit_suffix : forall a b, has_state b = true -> last_commit (a ++ b) = last_commit b.
+Proof. intros. rewrite last_commit_app. unfold last_commit. apply fold_commit_state. exact H. Qed.
+
+Lemma last_commit_suffix_le : forall a b, last_commit b <= last_commit (a ++ b).
+Proof.
+  intros. destruct (has_state b) eqn:Q.
+  - rewrite last_commit_suffix by exact Q. lia.
+  - unfold last_commit at 1. rewrite fold_commit_nostate by exact Q. lia.
+Qed.
+
+Lemma markers_ents_state : forall (l : list N) (hs : bool) (c : N),
+  markers (map REnt l ++ (if hs then [RState c] else [])) = [].
+Proof. intros. rewrite markers_app, markers_map_REnt. destruct hs; reflexivity. Qed.
+
+Lemma entries_ents_state : forall (l : list N) (hs : bool) (c : N),
+  entries (map REnt l ++ (if hs then [RState c] else [])) = l.
+Proof. intros. rewrite entries_app, entries_map_REnt. destruct hs; simpl; rewrite ?app_nil_r; reflexivity. Qed.
+
+Lemma last_commit_ents_state : forall a (l : list N) (hs : bool) (c : N),
+  last_commit (a ++ map REnt l ++ (if hs then [RState c] else [])) = if hs then c else last_commit a.
+Proof.
+  intros. rewrite app_assoc. destruct hs.
+  - apply last_commit_snoc_state.
+  - rewrite app_nil_r. apply last_commit_nostate. unfold has_state. induction l; simpl; auto.
+Qed.
+
+Lemma drop_tail_length : forall ss j, length (drop_tail ss j) = length ss.
+Proof.
+  induction ss as [|s t IH]; intros; auto.
+  destruct t as [|s2 t2]; [reflexivity|].
+  rewrite drop_tail_cons2. cbn [length]. rewrite IH. reflexivity.
+Qed.
+
+Lemma drop_tail_firsts : forall ss j, map sfirst (drop_tail ss j) = map sfirst ss.
+Proof.
+  induction ss as [|s t IH]; intros; auto.
+  destruct t as [|s2 t2]; [reflexivity|].
+  rewrite drop_tail_cons2. rewrite !map_cons. rewrite IH. reflexivity.
+Qed.
+
+Lemma all_recs_snoc : forall pre s, all_recs (pre ++ [s]) = all_recs pre ++ srecs s.
+Proof. intros. rewrite all_recs_app. unfold all_recs at 2. simpl. rewrite app_nil_r. reflexivity. Qed.
+
+(* dropping j buffered records after appending rs: the new ones go first *)
+Lemma drop_tail_app_tail_ge : forall pre s rs j, (length rs <= j)%nat ->
+  drop_tail (app_tail (pre ++ [s]) rs) j = drop_tail (pre ++ [s]) (j - length rs).
+Proof.
+  intros. rewrite app_tail_snoc, !drop_tail_snoc. simpl. f_equal. f_equal. f_equal.
+  rewrite app_length.
+  replace (length (srecs s) + length rs - j)%nat with (length (srecs s) - (j - length rs))%nat by lia.
+  rewrite firstn_app. replace (length (srecs s) - (j - length rs) - length (srecs s))%nat with 0%nat by lia.
+  simpl. rewrite app_nil_r. reflexivity.
+Qed.
+
+Lemma drop_tail_app_tail_le : forall pre s rs j, (j <= length rs)%nat ->
+  drop_tail (app_tail (pre ++ [s]) rs) j = app_tail (pre ++ [s]) (firstn (length rs - j) rs).
+Proof.
+  intros. rewrite !app_tail_snoc, drop_tail_snoc. simpl. f_equal. f_equal. f_equal.
+  rewrite app_length.
+  replace (length (srecs s) + length rs - j)%nat with (length (srecs s) + (length rs - j))%nat by lia.
+  rewrite firstn_app_2. reflexivity.
+Qed.
+
+(* the last entry of a chain that holds at least one entry, or of an empty log *)
+Lemma last_entry_chain : forall ss lo hi, seg_chain lo ss hi -> (lo < hi \/ hi = 0) -> last_entry (all_recs ss) = hi.
+Proof.
+  intros ss lo hi C H. rewrite last_entry_eq, (seg_chain_entries _ _ _ C).
+  destruct H as [H|H].
+  - apply last_range. exact H.
+  - subst. rewrite range_nil by lia. reflexivity.
+Qed.
+
+Lemma nth_app_tail_first : forall ss rs n d, sfirst (nth n (app_tail ss rs) d) = sfirst (nth n ss d).
+Proof.
+  intros. rewrite <- !map_nth with (f := sfirst). rewrite app_tail_firsts. reflexivity.
+Qed.
+
+Lemma hd_app_tail_first : forall ss rs d, sfirst (hd d (app_tail ss rs)) = sfirst (hd d ss).
+Proof.
+  intros. destruct ss as [|s [|s2 t]]; try reflexivity.
+Qed.
+
+Lemma lo_of_app_tail : forall ss rs, lo_of (app_tail ss rs) = lo_of ss.
+Proof. intros. unfold lo_of. rewrite hd_app_tail_first. reflexivity. Qed.
+
+Lemma lo_of_snoc : forall ss x, ss <> [] -> lo_of (ss ++ [x]) = lo_of ss.
+Proof. intros. unfold lo_of. destruct ss; [congruence|reflexivity]. Qed.
